@@ -23,6 +23,11 @@ pub fn agg_minmax<'a>(inp: impl Iterator<Item = (&'a i32,)>) -> impl Iterator<It
     out.into_iter()
 }
 
+thread_local! { static INIT_INPUTS: std::cell::RefCell<Vec<Vec<Vec<i32>>>> = const { std::cell::RefCell::new(Vec::new()) }; }
+/// inputs for programs whose relations are declared with an initialiser (`relation r(..) = <expr>`)
+pub fn set_init_inputs(v: Vec<Vec<Vec<i32>>>) { INIT_INPUTS.with(|i| *i.borrow_mut() = v) }
+pub fn init_inputs(rel: usize) -> Vec<Vec<i32>> { INIT_INPUTS.with(|i| i.borrow().get(rel).cloned().unwrap_or_default()) }
+
 pub trait VLat: Lattice + Clone + Eq + Hash + Debug + Send + Sync {
     const TY: LatTy;
     fn mk(w: i32) -> Self;
